@@ -35,6 +35,13 @@ FIXED = [
  (["C02"], "b0f088a", "a key BETWEEN with reversed bounds was merged as a range with the other operands: 'key = 'm' or key between 'z' and 'a'' was planned as RANGE[m,a] and lost the pair m, on which the clause is true without the BETWEEN ever being evaluated", "select key where key = 'm' or key between 'z' and 'a'  (store {m})"),
  (["C05"], "29ac3fe", "the chunk cache key of a named select field was name + '-' + first key of the chunk: the field `v-` over a chunk starting at key 00 and the field v over a chunk starting at key -00 shared one entry, so a well-typed statement failed (or showed the other field's values) in batch mode with the cache on", "select key, strlen(key) as `v-`, lower(value) as v where (`v-` >= 0) & (v = 'b')  (keys -00 -01 -02 -03 00 01, batch size 2)"),
  (["C06"], "5f94ff5", "quantile() accepted a NaN percentile (the words nan, inf and infinity are FLOAT literals because strconv.ParseFloat accepts them; NaN is neither > 1 nor < 0) and the statement panicked with an index out of range when the aggregate was completed", "select quantile(value, nan) where true"),
+ (["C09"], "eaee8dc", "the group key of a float GROUP BY value was its text with six decimals: 0.1 and 0.1000001 shared a group (counted and summed together), -0.0 and 0.0 did not", "select float(value) as f, count(1) where true group by f  (values '0.1', '0.1000001')"),
+ (["C14"], "ad2d8a6", "an aggregate statement with as many select fields as GROUP BY fields, one of the latter not selected, was refused with 'No aggregate fields in select statement'", "select count(1) where key != 'zz' group by value"),
+ (["C14"], "25e1a67", "DELETE did not check that its WHERE is Boolean: the statement was accepted and failed on the first pair, after the scan had started", "delete where 1 + 1"),
+ (["C14"], "e0209b4", "operand types the executor refuses passed the checker: the keywords and/or with non-Boolean operands of equal type, IN with a Boolean left operand, = and != between lists or JSON documents; all failed with an operand type error after storage access", "select * where 1 and 2;  select * where (key = 'a') in (true, false);  select * where split(key, 'a') = split(key, 'b')"),
+ (["C14"], "e77b8a8", "an aggregate function in a filter or in a PUT/REMOVE/DELETE expression (also through the name of an aggregate select field) passed the function-call check and failed with 'Cannot find function count' on the first pair", "select * where count(1) > 0;  put ('k1', count(1))"),
+ (["C16"], "c92a152", "one of * + - / directly followed by = produced no token (key*='x' lexed as key = 'x' while key * = 'x' is refused), and a ~ or ^ not followed by = produced no token either: spacing changed the token sequence and characters of the statement were silently dropped", "a*=b  ->  [a] [=] [b]"),
+ (["C03", "C05"], "2deac9e", "list() in batch mode chose between an integer and a float list once per chunk, from the first pair (through a scalar evaluation that could also read a stale field-cache entry): list(value, 2) over values 1 and 2.5 returned [2 2] for the second pair in batch mode and [2.5 2] in row mode", "select key, list(value, 2) where key ^= 'k'  (values '1', '2.5'; batch size >= 2)"),
  (["C02"], "4ef697a", "an upper bound at the empty literal was planned as an empty result also for the non-strict comparison: with a pair stored under the empty key, key <= '' (and '' >= key) lost it, while key = '' and the pair-by-pair filter select it", "select * where key <= ''  (store with a pair under the empty key)"),
  (["C15"], "d377034", "a folded float constant was written with %v: the float 3.0 became the literal text 3 in the filter EXPLAIN shows, which parsed again is an integer (integer instead of float division), and 1e21 became 1e+21, which the lexer splits at the sign: the shown filter was not the executed filter", "select key, value where int(value) / (1.5 + 1.5) <= 2.5  (shown: ((int(VALUE) / 3) <= 2.5); values 8, 9 pass the shown filter only)"),
  (["C06"], "9917b0d", "the function-call check added by 5a16734 followed every by-name reference into the referenced field, so a chain of fields each naming the previous one twice cost 2^n visits at plan time: 26 levels took seconds, 40 levels (650 bytes of text) did not finish", "select strlen(key) as a0, a0+a0 as a1, a1+a1 as a2, ... , a39+a39 as a40 where key ^= 'k'"),
